@@ -44,6 +44,21 @@ class Stream:
     def harness_env(self):
         return None
 
+    def oracle_model(self, req, ans, model_ans):
+        """oracle that may use an *independent specification* carried in the driver's answer
+        (never the code mirror's own result)"""
+        return None
+
+    needs_diag = False
+
+    def oracle_diag(self, req, ans, ans_diag):
+        """comparison of the default build with the +descriptive-deserialize-errors build"""
+        return None
+
+    def prepare(self, harness, driver):
+        """called once before gen(); may talk to the binaries (e.g. ask the zoo for descriptors)"""
+        return
+
 
 class Spec:
     prop = "C00"
@@ -110,16 +125,28 @@ def run_check(spec, tier, seed):
         for st in spec.streams:
             if harness is None:
                 break
+            st.prepare(harness, driver)
             reqs = st.gen(prng.fork(st.name), ptier)
             reqs = list(collections.OrderedDict.fromkeys(reqs))
             impl = vlib.run_lines(harness, reqs, env=st.harness_env())
             model = vlib.run_lines(driver, reqs) if driver else None
+            diag = None
+            if st.needs_diag:
+                try:
+                    hd = vlib.build_harness(diag=True)
+                    diag = vlib.run_lines(hd, reqs, env=st.harness_env())
+                except Broken as b:
+                    broken.append((b.what, b.detail))
             hist = collections.Counter()
             for i, (r, a) in enumerate(zip(reqs, impl)):
                 hist[st.tag(r, a)] += 1
                 if st.nontrivial(r, a):
                     distinct_nontrivial.add(st.name + " " + r)
                 why = st.oracle(r, a)
+                if why is None and model is not None:
+                    why = st.oracle_model(r, a, model[i])
+                if why is None and diag is not None:
+                    why = st.oracle_diag(r, a, diag[i])
                 cls = st.finding_class(r, a)
                 if why is not None:
                     if cls is not None and cls in open_classes:
